@@ -1,7 +1,7 @@
 #!/bin/bash
 # usage: tools/stage_mutation.sh <name> <worktree> <property>   -- record a seeded change without touching /repo
 name=$1; wt=$2; prop=$3
-out=/verif/seeded/$name; mkdir -p $out
+out=$(cd "$(dirname "$0")/.." && pwd)/seeded/$name; mkdir -p $out
 git -C $wt diff -- sweetpea > $out/patch.diff
 cp $wt/demo_mutation.py $out/demo_mutation.py 2>/dev/null
 cp $wt/mutation_notes.md $out/notes.md 2>/dev/null
